@@ -9,6 +9,7 @@ PID = "C06"
 LEVEL = "exploration"
 RULE = (
     "One spec in three has lived before (warm start): another model edited in place into this one or swapped into the old project object, or the model's own run cut short by max_time and then continued with one of the unequal initialize-flag combinations (state carried over and logs restarted, or state reset and logs appended), or a first run that does not initialize the logs. Teams may list a task without the task listing the team (one-sided links). "
+    'One cold-started spec in six is simulated with unit_time 2 or 3 (absence lists in time units, steps and logs indexed by step). '
     'Hypothesis-generated models (profiles W and F, all dependency kinds, solo flags, fixed lists, per-resource absences, all task rules). Oracle at every working step: start dependencies satisfied in the updated snapshot => not NONE; automatic task without component not READY after allocation; no FREE worker eligible (C04 predicate) for a READY/WORKING non-facility task that can still accept it, and no FREE eligible worker+facility pair of the placed workplace for facility tasks of single-task components of flat products - for a component that stayed unplaced, of every workplace the task lists whose free room (counting everything that was there at the start or at the end of the pass) holds the component; sizes and capacities are dyadic or decimal (exact fits such as 0.3 = 3 x 0.1); zero remaining work and finish dependencies at the end of step k-1 => FINISHED at step k. Non-trivial = a READY task waited after allocation for lack of an eligible worker, or a worker joined an already WORKING task; distinct by spec hash.'
 )
 ASSUMPTIONS = [
@@ -19,7 +20,7 @@ TECHNIQUE = 'property-based testing (Hypothesis): generated models, no-idle / no
 LEVEL_TEXT = 'Generated-input search with invariants evaluated on the end-of-allocation state of every working step (sound because allocation lists only grow during the pass); not a proof.'
 LEVEL_NOTE = 'Trusts the step observer; eligibility predicate shared with C04; pair clause only for flat products and single-task components, as the property states.'
 
-CFG = gen.Cfg(warm_modes=["morph", "graft", "carry", "append", "nolog"], warm=3, onesided=3, facilities=True, max_workers=5, max_time=[40, 80], kinds=[0, 0, 1, 2, 3], inputs=False, abs_p=2, abs_size=6,
+CFG = gen.Cfg(unit_time=6, warm_modes=["morph", "graft", "carry", "append", "nolog"], warm=3, onesided=3, facilities=True, max_workers=5, max_time=[40, 80], kinds=[0, 0, 1, 2, 3], inputs=False, abs_p=2, abs_size=6,
               abs_max=12, max_deps_factor=3)
 
 
@@ -61,12 +62,22 @@ def _fit_spec(draw):
     }
 
 
+@st.composite
+def _reorganised(draw, cfg):
+    """The model is reached by a re-organisation of one that was simulated before: workers (and facilities) have
+    left their team (workplace) and been added to another one (add_worker / add_facility), skills and lists edited."""
+    spec = draw(gen.model_spec(cfg))
+    spec["warm"] = {"mode": "morph", "k": 2}
+    spec.pop("unit_time", None)
+    return spec
+
+
 def strategy(tier):
     from hypothesis import strategies as st
 
     cfg = CFG if tier == "quick" else CFG.copy(max_tasks=12, max_workers=8)
     pairs = CFG_PAIRS if tier == "quick" else CFG_PAIRS.copy(max_tasks=9, max_workers=6)
-    return st.one_of(gen.model_spec(cfg), gen.model_spec(cfg), gen.pairs_spec(pairs), _fit_spec())
+    return st.one_of(gen.model_spec(cfg), gen.model_spec(cfg), gen.pairs_spec(pairs), _fit_spec(), _reorganised(cfg.copy(max_teams=3, max_workers=6)))
 
 
 def budget(tier):
